@@ -60,6 +60,26 @@ SpecVerdict(c, rk, x) ==
        ELSE [valid |-> FALSE, name |-> p[CHOOSE i \in bad : \A j \in bad : i <= j],
              value |-> NoVal, tweak |-> NoTweak]
 
+(***************************************************************************)
+(* Spelling of a hex-valued field (message, signature, tweak).  The        *)
+(* certificate IS its bytes: a spelling that the loader accepts must give  *)
+(* exactly the verdicts and values of the canonical spelling of the same   *)
+(* bytes.  What the unchanged loader does with each member was established *)
+(* by running it (same result for every hex field):                        *)
+(*   read as the same bytes: lower case, upper case, mixed case, leading / *)
+(*     trailing blank(s), blanks / tabs / line breaks between byte pairs,  *)
+(*     trailing newline                                                    *)
+(*   refused at load: blanks only, empty, "0x" prefix, odd number of       *)
+(*     digits, non-ASCII digits, a blank inside a byte pair, a no-break    *)
+(*     space                                                               *)
+(* "" = every field in the canonical spelling.                             *)
+(***************************************************************************)
+SpellAccepted == {"", "lower", "upper", "mixed", "lead_blank", "trail_blank", "inner_blanks", "tabs",
+                  "trail_newline"}
+SpellRefused  == {"ws_only", "empty", "prefix_0x", "odd", "non_ascii", "split_pair", "nbsp"}
+\* a document is a certificate (must load) iff its fields are readable and its targets reach the root
+Loadable(c, targets, spell) == spell \in SpellAccepted /\ WellFormed(c, targets)
+
 \* Judging one observed verdict o = [valid, name, value] for target x; "" = agrees
 JudgeTarget(c, rk, x, o) ==
     IF ~HasPath(c, x)
